@@ -132,37 +132,46 @@ def r3(ctx):
                        'reject, and the counter calls it with read1_only=True and the caller\'s min_mq / dedup')
 def r4(ctx):
     g = ctx.fn(BINCOUNTS, 'read_counts')
-    cfg = CFG(g.body, exceptions=False)
-    rets_true = [s for s in walk_no_nested(g) if isinstance(s, ast.Return) and isinstance(s.value, ast.Constant) and s.value.value is True]
-    ok = len(rets_true) == 1 and g.body[-1] is rets_true[0]
-    ctx.emit('C12-R4', ok, BINCOUNTS, g, 'read_counts: the only `return True` is the last statement (filters can only reject)', key='reject-only')
-    tests = {}
-    for s in g.body:
-        if isinstance(s, ast.If) and any(isinstance(x, ast.Return) and isinstance(x.value, ast.Constant) and x.value.value is False for x in walk_no_nested(s)):
-            tests[src(s.test)] = s
-    want = {
-        'read1': lambda t: 'read1_only' in t and 'is_read1' in t,
-        'qcfail': lambda t: 'is_qcfail' in t,
-        'duplicate': lambda t: 'dedup' in t and 'is_duplicate' in t,
-        'mp': lambda t: "'mp'" in t and 'unique' in t,
-        'mapq': lambda t: 'mapping_quality' in t and 'min_mq' in t,
-    }
-    for k, fn in want.items():
-        hit = [t for t in tests if fn(t)]
-        ctx.emit('C12-R4', len(hit) == 1, BINCOUNTS, tests[hit[0]] if hit else g, f'filter `{k}`: ' + (f'`{hit[0]}` -> return False' if hit else 'MISSING'), key=f'filter:{k}', nontrivial=False)
-    mq = [t for t in tests if want['mapq'](t)]
-    if mq:
-        t = tests[mq[0]].test
-        ncase, bad = check_pred(t, lambda e: e['has'] and e['mq'] < e['min'], symbols=['mq', 'min'],
-                                atom_name=lambda x: {'read.mapping_quality': 'mq', 'min_mq': 'min', 'min_mq is not None': 'has'}.get(src(x)), extra_bools=['has'])
+    # read_counts as decision procedure: starting from a read that passes everything, one filter at a time is varied over all combinations of
+    # its atoms; the read is rejected iff the documented predicate holds - however the tests are nested, split or moved into a closure
+    import itertools
+    from ..util import outcomes_by_case
+    BASE = {'read1_only': False, 'read.is_read1': True, 'read is None': False, 'read.is_qcfail': False, 'ignore_qcfail': False, 'dedup': False, 'read.is_duplicate': False,
+            'ignore_mp': False, "read.has_tag('mp')": False, "read.get_tag('mp') != 'unique'": False, 'min_mq is not None': False, 'min_mq is None': True, 'verbose': False}
+    atom = lambda x: None if isinstance(x, ast.Compare) else {'read.mapping_quality': 'mq', 'min_mq': 'min'}.get(src(x))
+    outs0 = {o for c_, os_ in outcomes_by_case(g.body, [{'mq': 1, 'min': 0}], atom, facts=dict(BASE)) for o in os_}
+    ctx.emit('C12-R4', outs0 == {('return', True)}, BINCOUNTS, g, f'read_counts: a read that fails no filter is counted on every path ({sorted(map(str, outs0))}) - filters can only reject', key='reject-only')
+    specs = [
+        ('read1', {'read1_only': 'o', 'read.is_read1': 'r1'}, lambda e: e['o'] and not e['r1']),
+        ('qcfail', {'read.is_qcfail': 'q', 'ignore_qcfail': 'ig'}, lambda e: e['q'] and not e['ig']),
+        ('duplicate', {'dedup': 'o', 'read.is_duplicate': 'dup'}, lambda e: e['o'] and e['dup']),
+        ('mp', {'ignore_mp': 'ig', "read.has_tag('mp')": 'h', "read.get_tag('mp') != 'unique'": 'nu'}, lambda e: (not e['ig']) and e['h'] and e['nu']),
+        ('mapq', {'min_mq is not None': 'has'}, lambda e: e['has'] and e['mq'] < e['min']),
+    ]
+    for name, ren, spec in specs:
+        bools = sorted(set(ren.values()))
+        bad = []
+        ncase = 0
+        for bv in itertools.product((True, False), repeat=len(bools)):
+            benv = dict(zip(bools, bv))
+            facts = dict(BASE)
+            for t_, b_ in ren.items():
+                facts[t_] = benv[b_]
+            if name == 'mapq':
+                facts['min_mq is None'] = not benv['has']
+            numcases = [{'mq': m_, 'min': n_} for m_ in range(0, 3) for n_ in range(0, 3)] if name == 'mapq' else [{'mq': 1, 'min': 0}]
+            for case, outs in outcomes_by_case(g.body, numcases, atom, facts=facts):
+                ncase += 1
+                e = dict(benv, **case)
+                want = not spec(e)
+                got = {bool(v) if isinstance(v, (bool, int)) else v for k_, v in outs if k_ == 'return'}
+                if (got != {want} or any(k_ != 'return' for k_, v in outs)) and len(bad) < 3:
+                    bad.append({'case': e, 'outcomes': sorted(map(str, outs)), 'documented_accept': want})
         ctx.counters['abstract_cases'] += ncase
-        ctx.emit('C12-R4', not bad, BINCOUNTS, tests[mq[0]], f'MAPQ filter `{src(t)}` over {ncase} cases ' + ('== threshold given and MAPQ < threshold' if not bad else
-                 f'differs at {bad[0]["case"]}: a read with MAPQ equal to the threshold is ' + ('dropped' if bad[0]['code'] else 'kept')), key='mapq-threshold', witness=bad[0] if bad else None)
-    dd = [t for t in tests if want['duplicate'](t)]
-    if dd:
-        t = tests[dd[0]].test
-        ncase, bad = check_pred(t, lambda e: e['dedup'] and e['dup'], symbols=[], atom_name=lambda x: {'dedup': 'dedup', 'read.is_duplicate': 'dup'}.get(src(x)), extra_bools=['dedup', 'dup'])
-        ctx.emit('C12-R4', not bad, BINCOUNTS, tests[dd[0]], f'duplicate filter `{src(t)}` == dedup and duplicate' if not bad else f'differs: {bad[0]}', key='dedup-filter')
+        key = {'mapq': 'mapq-threshold', 'duplicate': 'dedup-filter'}.get(name, f'filter:{name}')
+        ctx.emit('C12-R4', not bad, BINCOUNTS, g, f'filter `{name}`: over {ncase} cases the read is rejected iff the documented predicate holds' if not bad else
+                 f'filter `{name}` differs at {bad[0]["case"]}: outcomes {bad[0]["outcomes"]}, documented: {"count" if bad[0]["documented_accept"] else "reject"}',
+                 key=key, witness=bad[0] if bad else None, nontrivial=name in ('mapq', 'duplicate'))
     f, loop = _count_loop(ctx)
     calls = [c for c in walk_no_nested(loop) if isinstance(c, ast.Call) and dotted(c.func) == 'read_counts']
     kw = {k.arg: src(k.value) for k in calls[0].keywords} if calls else {}
